@@ -27,6 +27,9 @@ def plan(tier, seed):
     nr = 16 if thorough else 8
     for s in range(nr):
         jobs.append({"variant": "c" if s % 2 else "py", "part": "random", "shard": s, "nshards": nr, "params": {"n": 100000 if thorough else 3500}})
+    ns = 16 if thorough else 4
+    for s in range(ns):
+        jobs.append({"variant": "c" if s % 2 else "py", "part": "product", "shard": s, "nshards": ns, "params": {"stride": 6 if thorough else 300}})
     jobs.append({"variant": "c", "part": "shapes", "params": {}})
     jobs.append({"variant": "py", "part": "shapes", "params": {}})
     return jobs
@@ -128,6 +131,24 @@ def run(ctx):
                 if not is_exc(v):
                     check_copies(ctx, v, {"op": op}, ("shape-op", op_name(op)))
         ctx.sample({"op": {"op": "ctor", "s": "foo://u@:80/"}})
+        return
+    if ctx.part == "product":
+        from ..shapes import iter_shapes
+
+        stride = ctx.params["stride"] * ctx.nshards
+        for lab, text, kw in iter_shapes(stride, ctx.shard * ctx.params["stride"] + ctx.seed % ctx.params["stride"]):
+            ops = [{"op": "ctor", "s": text}, {"op": "ctor", "s": text, "encoded": True}]
+            if kw is not None:
+                ops.append({"op": "build", "kw": {k: (v if not isinstance(v, int) else {"t": "int", "v": str(v)}) for k, v in kw.items()}})
+            for bop in ops:
+                for op in (bop, {"op": "mod", "base": bop, "m": "with_user", "args": [""]}, {"op": "mod", "base": bop, "m": "with_query", "args": [{"t": "dict", "v": [["k", "v"]]}]},
+                           {"op": "div", "base": bop, "arg": "seg"}, {"op": "mod", "base": bop, "m": "with_suffix", "args": [".t.gz"]}, {"op": "mod", "base": bop, "m": "with_fragment", "args": [None]}):
+                    for touched in (False, True):
+                        u = guarded(apply, op, touch_all if touched else None)
+                        if is_exc(u):
+                            ctx.count("rejected")
+                            continue
+                        check_copies(ctx, u, {"op": op, "used_intermediates": touched}, ("product", op_name(op), touched) + lab[1:4])
         return
     og = OpGen(ctx.rng, surrogates=True)
     for k in range(ctx.params["n"]):
